@@ -179,8 +179,11 @@ SameFunction(t, res) ==
 SizeViol(res) ==
     IF res.f < 0 \/ ~Has(res, "nc") \/ ~Has(res, "fn") \/ ~LiveForest(res.f) THEN {}
     ELSE LET F == fors[res.f] IN
-         IF F.rel \/ ~(F.lab \in {"MT", "EP"}) \/ ~(F.rule \in {"F", "Q"})
-            \/ F.l2v # [k \in 1..Len(F.l2v) |-> k] \/ HasOff(res.fn) THEN {}
+         IF F.l2v # [k \in 1..Len(F.l2v) |-> k] \/ HasOff(res.fn) THEN {}
+         ELSE IF F.rel
+         THEN (IF F.lab = "MT" /\ res.nc # RelCanonSize(res.fn, FDS(F), F.rule)
+               THEN {V("C01", "node-count-not-canonical")} ELSE {})
+         ELSE IF ~(F.lab \in {"MT", "EP"}) \/ ~(F.rule \in {"F", "Q"}) THEN {}
          ELSE IF res.nc # CanonSize(res.fn, FDS(F), F.lab = "EP", F.rule = "F")
               THEN {V("C01", "node-count-not-canonical")} ELSE {}
 
